@@ -45,6 +45,18 @@ static USE_SIMD128: LazyLock<bool> = LazyLock::new(|| {
     !NO_VALUES.contains(&use_simd128.as_str())
 });
 
+#[cfg(feature = "verif-hooks")]
+pub(crate) fn verif_simd_contains_active() -> bool {
+    #[cfg(any(target_arch = "x86", target_arch = "x86_64"))]
+    {
+        *USE_AVX2
+    }
+    #[cfg(not(any(target_arch = "x86", target_arch = "x86_64")))]
+    {
+        false
+    }
+}
+
 lex_enum!(
     /// OrderingOp is an operator for an ordering [`ComparisonOpExpr`].
     #[repr(u8)] OrderingOp {
@@ -592,6 +604,8 @@ impl Expr for ComparisonExpr {
                     }
 
                     let position = rng().random_range(1..bytes.len());
+                    #[cfg(feature = "verif-hooks")]
+                    let position = crate::verif::contains_anchor(bytes.len()).unwrap_or(position);
                     return unsafe {
                         match bytes.len() {
                             2 => search!(ArraySearcher(Avx2Searcher::with_position(
